@@ -150,6 +150,13 @@ theorem step_wrSame (s s' : St) (e : Ev) (hs : step s e = some s') (hce : e.call
       · simp at hs; subst hs; exact WrSame.of_eq rfl
       all_goals cases hs
     · cases hs
+  | envErr a e0 =>
+    simp only [step, stepI] at hs
+    split at hs
+    · split at hs
+      · simp at hs; subst hs; exact WrSame.of_eq rfl
+      all_goals cases hs
+    · cases hs
   | giveUp n =>
     simp only [step, stepI] at hs
     split at hs
@@ -579,7 +586,7 @@ theorem reglink_step (sp : RegSpec) (val : St → Nat → Prop) (s s' : St) (e :
         exact ⟨⟨L, cur, hok.congr (fun b _ _ _ => hw_iff b) (fun i h => (hf_iff i).2 h)
           (fun b _ _ _ h => (hf_iff b).1 h), hvals.2 heff⟩, hpd, hpc⟩
   | ret a r =>
-    have hshape : ∃ c : Call, s.calls[a]? = some c ∧ (c.st = .done r ∨ (c.st = .wcancel ∧ r = .wx (some 0))) ∧
+    have hshape : ∃ c : Call, s.calls[a]? = some c ∧ (c.st = .done r ∨ (c.st = .wcancel ∧ wxOK s a r = true)) ∧
         s' = setCall s a { c with st := .finished } := by
       simp only [step, stepI] at hs
       split at hs
@@ -700,6 +707,7 @@ theorem reglink_step (sp : RegSpec) (val : St → Nat → Prop) (s s' : St) (e :
   | envCancel c => exact ⟨reg, rfl, hgen rfl⟩
   | envDo c => exact hgen rfl
   | envCancelW a => exact ⟨reg, rfl, hgen rfl⟩
+  | envErr a e0 => exact ⟨reg, rfl, hgen rfl⟩
   | giveUp n => exact hgen rfl
   | drained n => exact hgen rfl
   | cbin k n f arg root => exact ⟨reg, rfl, hgen rfl⟩
@@ -924,6 +932,13 @@ theorem step_ctx (s s' : St) (e : Ev) (hs : step s e = some s') :
     · simp at hs; subst hs; exact Or.inr ⟨hno _ (by intro a h; cases h), Or.inl rfl⟩
     · cases hs
   | envCancelW a =>
+    simp only [step, stepI] at hs
+    split at hs
+    · split at hs
+      · simp at hs; subst hs; exact Or.inr ⟨hno _ (by intro a h; cases h), Or.inl rfl⟩
+      all_goals cases hs
+    · cases hs
+  | envErr a e0 =>
     simp only [step, stepI] at hs
     split at hs
     · split at hs
@@ -1246,6 +1261,11 @@ theorem ctx_step (s s' : St) (e : Ev) (ms : C05cSt) (hl : CtxLink s ms) (ha : Al
     simp only [Ev.obs, monC05c] at hr1 ⊢
     simp [hr1]
   | envCancelW a =>
+    obtain ⟨reg', hr1, hr2⟩ := hreg
+    refine ⟨{ info := ms.info, ctxR := reg' }, ?_, hr2, hinf (by intro _ _ _ _ _ h; cases h)⟩
+    simp only [Ev.obs, monC05c] at hr1 ⊢
+    simp [hr1]
+  | envErr a e0 =>
     obtain ⟨reg', hr1, hr2⟩ := hreg
     refine ⟨{ info := ms.info, ctxR := reg' }, ?_, hr2, hinf (by intro _ _ _ _ _ h; cases h)⟩
     simp only [Ev.obs, monC05c] at hr1 ⊢
